@@ -794,6 +794,70 @@ def r04_27(run, model):
         run.floor("constructions of range-giving nodes in tast_builder", n, 1)
 
 
+def r04_30(run, model):
+    run.rule("R04.30", "an error is never emptied on its way out: a formatter that keeps the diagnostics of one stage only (a `.filter(..)` on "
+                       "`stage() == &Stage::X` - discovered, today parser::format_parser_diagnostics) is handed the diagnostics of the "
+                       "CompilationError variant of that stage and of no other: the bindings that reach its argument are resolved by scope "
+                       "(if-let then-block, let-else remainder, match arm, tuple-let over a match) to the variants they destructure")
+    filt = {}
+    for f in model.fns():
+        if f.body is None or f.test or "/tests/" in f.file:
+            continue
+        for c in S.find(f.body, "MethodCall"):
+            if c["method"] == "filter" and c["args"]:
+                m = re.search(r"stage\(\)==&?(?:[a-z_]+::)*Stage::([A-Z][A-Za-z]*)", S.norm_ws(run.facts.text(f.file, c["args"][0]["sp"])).replace(" ", ""))
+                if m:
+                    filt[f.name] = m.group(1)
+    if not filt:
+        raise AnalysisIncomplete("no stage-filtering diagnostics formatter found")
+    n = 0
+    for f in model.fns():
+        if f.body is None or f.test or "/tests/" in f.file or f.name in filt or not f.file.startswith("crates/compiler/"):
+            continue
+        calls = [c for c in S.walk(f.body) if c["k"] in ("Call", "MethodCall") and S.callee_name(c) in filt and c["args"]]
+        if not calls:
+            continue
+        par = S.Parents(f.body)
+
+        def variants_of(pat):
+            return set(re.findall(r"CompilationError::([A-Z][A-Za-z]*)", S.norm_ws(run.facts.text(f.file, pat["sp"]))))
+
+        for c in calls:
+            a = c["args"][0]
+            while a["k"] in ("Ref", "Paren", "Unary"):
+                a = a["expr"]
+            if a["k"] != "Path" or len(a["segs"]) != 1:
+                continue
+            name = a["segs"][0]
+            want = filt[S.callee_name(c)]
+            got = None
+            # innermost binder of `name` whose scope contains the call
+            for anc in par.ancestors(c):
+                if anc["k"] == "Arm" and name in S.pat_bindings(anc["pat"]) and S.span_contains(anc["body"]["sp"], c["sp"]):
+                    got = variants_of(anc["pat"])
+                elif anc["k"] == "If" and anc["cond"]["k"] == "Let" and name in S.pat_bindings(anc["cond"]["pat"]) and S.span_contains(anc["then"]["sp"], c["sp"]):
+                    got = variants_of(anc["cond"]["pat"])
+                elif anc["k"] == "Block":
+                    for st in anc["stmts"]:
+                        if st["k"] == "Local" and name in S.pat_bindings(st["pat"]) and (st["sp"][2], st["sp"][3]) <= (c["sp"][0], c["sp"][1]):
+                            v = variants_of(st["pat"])
+                            if not v and st.get("init") is not None:
+                                for mm in S.find(st["init"], "Match"):
+                                    for arm in mm["arms"]:
+                                        if not S.is_divergent_expr(arm["body"]) if hasattr(S, "is_divergent_expr") else True:
+                                            v |= variants_of(arm["pat"])
+                            got = v
+                if got is not None:
+                    break
+            n += 1
+            ok = got is not None and (not got or got == {want})
+            run.ob("R04.30", f"{f.name}|{S.callee_name(c)} receives the diagnostics of CompilationError::{want} only", ok, site(f.file, c["sp"]),
+                   f"`{name}` is bound from {sorted(got) if got else 'no CompilationError pattern'}" if got is not None else f"binding of `{name}` not found",
+                   witness="a derive error in a non-entry file (`#[derive(ToString)]` on a generic struct in Shapes/shapes.gom): the lowering diagnostics "
+                           "are routed through the parser formatter, which keeps Stage::Parser only - `run` exits 1 and prints nothing")
+    run.floor("calls of a stage-filtering formatter in the compiler crate", n, 2)
+
+
 def run(run, model):
     mir = Mir(run.facts)
     an = run.try_rule(r04_1, model)
@@ -803,6 +867,7 @@ def run(run, model):
     run.try_rule(r04_5, model, mir)
     run.try_rule(r04_16, model, mir)
     run.try_rule(r04_17, model)
+    run.try_rule(r04_30, model)
     from rules import c17 as _c17
     run.rule("R04.20", "the by-name lowering of builtins cannot meet a user function of that name (shared with C16 R16.8): define_function "
                        "rejects a name that is already in the function table; otherwise `fn vec_get(x: int32)` reaches the back end's "
